@@ -38,7 +38,11 @@ CONSTANTS Conns,      \* connection ids
           MaxPerHost,
           Findings
 
-Msgs == {"version", "verack", "other"}
+\* versionOld: a version below the minimum protocol version; versionBad: one whose user agent the server refuses -
+\* the connection is cut WITHOUT the peer being announced to the server.  The refused user agent is told so by a reject
+\* message ("rejected"); a protocol that old cannot carry a reject message (they exist from 70002), it is just cut
+Msgs == {"version", "verack", "other", "versionOld", "versionBad"}
+Refused(m) == m \in {"versionOld", "versionBad"}
 
 VARIABLES
   cs,       \* c -> [st, nver, ack, reads, nmsg]   st: idle | nego | ready | closed
@@ -71,14 +75,15 @@ Ideal == Findings \cap {"dup-in-negotiation"} = {}
 Outcome(c, m) ==
   LET s == cs[c] IN
   IF s.st = "nego" /\ DirOf[c] = "in" THEN
-       IF s.reads = 0 THEN (IF m = "version" THEN "version" ELSE "fail")
+       IF s.reads = 0 THEN (IF m = "version" THEN "version" ELSE IF m = "versionBad" THEN "rejected" ELSE "fail")
        ELSE (IF m = "verack" THEN "ack" ELSE "fail")
   ELSE IF s.st = "nego" THEN   \* outbound: two reads, any order
-       IF m = "version" THEN (IF s.nver > 0 /\ Ideal THEN "fail" ELSE "version")
+       IF Refused(m) THEN (IF (s.nver > 0 /\ Ideal) \/ m = "versionOld" THEN "fail" ELSE "rejected")
+       ELSE IF m = "version" THEN (IF s.nver > 0 /\ Ideal THEN "fail" ELSE "version")
        ELSE IF m = "verack" THEN (IF s.ack /\ Ideal THEN "fail" ELSE "ack")
        ELSE "fail"
-  ELSE \* ready
-       IF m = "version" THEN "fail"
+  ELSE \* ready: any further version message is a duplicate
+       IF m = "version" \/ Refused(m) THEN "fail"
        ELSE IF m = "verack" THEN (IF s.ack THEN "fail" ELSE "ack")
        ELSE "none"
 
@@ -87,11 +92,11 @@ Receive(c, m) ==
   /\ LET o == Outcome(c, m)
          s == cs[c]
          r == IF s.st = "nego" THEN s.reads + 1 ELSE s.reads
-         st2 == IF o = "fail" THEN "closed" ELSE IF s.st = "nego" /\ r = 2 THEN "ready" ELSE s.st
+         st2 == IF o \in {"fail", "rejected"} THEN "closed" ELSE IF s.st = "nego" /\ r = 2 THEN "ready" ELSE s.st
      IN /\ cs' = [cs EXCEPT ![c] = [st |-> st2, nver |-> IF o = "version" THEN s.nver + 1 ELSE s.nver,
                                     ack |-> (s.ack \/ o = "ack"), reads |-> r, nmsg |-> s.nmsg + 1]]
         /\ newQ' = IF o = "version" THEN Append(newQ, c) ELSE newQ
-        /\ doneQ' = IF o = "fail" THEN Append(doneQ, c) ELSE doneQ
+        /\ doneQ' = IF o \in {"fail", "rejected"} THEN Append(doneQ, c) ELSE doneQ
         /\ obs' = [ev |-> "msg", c |-> c, m |-> m, out |-> o]
   /\ UNCHANGED <<entries, perHost, perGroup>>
 
